@@ -8,7 +8,7 @@ import MdIt.Props.C05Rest
 #check @MdIt.Pipeline.doc_ord_post
 #check @MdIt.Pipeline.noSplitTab_of_tabFree
 #check @MdIt.Pipeline.noSplitTab_of_check
-#check @MdIt.Pipeline.ranges_ordered_needs_htab
+#check @MdIt.Pipeline.ranges_ordered_exTab
 #check @MdIt.Pipeline.afterBlocks_postOk
 #check @MdIt.Block.parseBlocks_geo3
 #check @MdIt.Block.inlSpec3_pfull
@@ -25,7 +25,7 @@ import MdIt.Props.C05Rest
 #print axioms MdIt.Pipeline.doc_ord_post
 #print axioms MdIt.Pipeline.noSplitTab_of_tabFree
 #print axioms MdIt.Pipeline.noSplitTab_of_check
-#print axioms MdIt.Pipeline.ranges_ordered_needs_htab
+#print axioms MdIt.Pipeline.ranges_ordered_exTab
 #print axioms MdIt.Pipeline.afterBlocks_postOk
 #print axioms MdIt.Block.parseBlocks_geo3
 #print axioms MdIt.Block.inlSpec3_pfull
